@@ -113,7 +113,7 @@ def lake_build(targets, timeout=1500):
     return proc.returncode == 0, proc.stdout + proc.stderr
 
 
-_THEOREM_RE = re.compile(r"^\s*theorem\s+([A-Za-z_][A-Za-z0-9_'.]*)", re.M)
+_THEOREM_RE = re.compile(r"^\s*theorem\s+([A-Za-z_][A-Za-z0-9_'.?!]*)", re.M)
 _FORBIDDEN_RE = re.compile(
     r"\bsorry\b|\badmit\b|^\s*axiom\s|native_decide|bv_decide|implemented_by|\bunsafe\s|maxHeartbeats\s+0\b",
     re.M,
